@@ -171,6 +171,16 @@ def perturbations(region, prng):
             m4 = _copy.deepcopy(d)
             m4[k] = vocab[k][0]
             yield f'{attr}[{k!r}] added', rebuild(**{attr: m4})
+            # an entry is an entry whatever its value: None / 0 / '' / False / [] stored under a key that the other lacks
+            for empty in (None, 0, '', False, []):
+                m5 = _copy.deepcopy(d)
+                m5[k] = empty
+                yield f'{attr}[{k!r}] added as {empty!r}', rebuild(**{attr: m5})
+        for k in list(dict.keys(d))[:2]:
+            if dict.__getitem__(d, k) is not None:
+                m6 = _copy.deepcopy(d)
+                dict.__setitem__(m6, k, None)
+                yield f'{attr}[{k!r}] set to None', rebuild(**{attr: m6})
 
 
 def unit_reexpressed(region):
@@ -344,26 +354,66 @@ def run_list(case, obs, prng):
         derived.append((f'[{a}:{b}]', src[a:b]))
         derived.append(('[::-1]', src[::-1]))
         derived.append(('[::2]', src[::2]))
+    # empty derived lists (an empty slice, a copy that was emptied) are lists of their own as well
+    derived.append((f'[{n}:]', src[n:]))
+    derived.append(('[0:0]', src[0:0]))
+    emptied = src.copy()
+    while len(emptied):
+        emptied.pop()
+    unchanged('emptying a copy with pop()')
+    derived.append(('copy() emptied with pop()', emptied))
     for label, d in derived:
         obs.check(isinstance(d, Regions), 'regions-slice-type', f'Regions{label} is {type(d).__name__}', 'regions-list')
         if label in ('copy()', '[:]'):
             obs.check(len(d) == n and all(x is y for x, y in zip(d.regions, src.regions)), 'regions-copy-differs',
                       f'Regions.{label} does not hold the same members', 'regions-list')
-        for op in prng.sample(['append', 'extend', 'insert', 'pop', 'reverse'], 3):
+        obs.check(d.regions is not src.regions, 'regions-derived-shares-list', f'Regions{label} holds the very list object of its source', 'regions-list')
+        model = list(d.regions)               # a plain Python list doing the same operations
+        for step in range(5):
+            op = prng.choice(['append', 'extend', 'extend-regions', 'extend-source', 'extend-source-list', 'extend-tuple', 'insert', 'pop',
+                              'pop0', 'reverse'])
             try:
                 if op == 'append':
                     d.append(extra)
+                    model.append(extra)
                 elif op == 'extend':
                     d.extend([extra, extra])
+                    model.extend([extra, extra])
+                elif op == 'extend-regions':
+                    d.extend(Regions([extra]))
+                    model.extend([extra])
+                elif op == 'extend-source':          # the source itself as the argument
+                    d.extend(src)
+                    model.extend(items)
+                elif op == 'extend-source-list':
+                    d.extend(src.regions)
+                    model.extend(items)
+                elif op == 'extend-tuple':
+                    d.extend((extra,))
+                    model.extend((extra,))
                 elif op == 'insert':
-                    d.insert(0, extra)
-                elif op == 'pop' and len(d):
-                    d.pop()
+                    k = prng.randint(-2, len(model) + 1)
+                    d.insert(k, extra)
+                    model.insert(k, extra)
+                elif op == 'pop' and len(model):
+                    got = d.pop()
+                    obs.check(got is model.pop(), 'regions-list-differs-from-list-model', f'pop() on Regions{label} returned another member than a list would', 'regions-list')
+                elif op == 'pop0' and len(model):
+                    got = d.pop(0)
+                    obs.check(got is model.pop(0), 'regions-list-differs-from-list-model', f'pop(0) on Regions{label} returned another member than a list would', 'regions-list')
                 elif op == 'reverse':
                     d.reverse()
+                    model.reverse()
             except Exception as exc:
                 obs.violation('regions-mutator-raised', f'{op} on Regions{label} raised {type(exc).__name__}: {exc}')
+                break
             unchanged(f'{op} on Regions{label}')
+            same = len(d) == len(model) and all(x is y for x, y in zip(d.regions, model)) and [r for r in d] == model
+            obs.check(same, 'regions-list-differs-from-list-model', f'after {op} (step {step}) Regions{label} holds other members than a list doing the same operations '
+                      f'({len(d)} vs {len(model)})', 'regions-list')
+            if not same:
+                break
+        obs.check(d.regions is not src.regions, 'regions-derived-shares-list', f'after its own edits Regions{label} holds the very list object of its source', 'regions-list')
     if n:
         i = prng.randrange(n)
         obs.check(src[i] is items[i] and src[-1] is items[-1], 'regions-index-wrong', 'Regions[i] is not the i-th member', 'regions-list')
